@@ -295,6 +295,10 @@ class Program:
                     fi.type = self.type_of_literal(fi.default)
                 if fi.type == UNK and fi.default is not None and fi.origin == 'init':
                     t = self.type_of_literal(fi.default)
+                    init = c.methods.get('__init__')
+                    if t == UNK and isinstance(fi.default, ast.Name) and init is not None \
+                            and fi.default.id in init.param_ann:
+                        t = self.type_of_annotation(init.param_ann[fi.default.id])
                     if t != UNK:
                         fi.type = t
 
